@@ -485,3 +485,38 @@ fn c11_streaminfo_roundtrip_twin() {
 // BufReader/BufWriter/BitReader/BitWriter at a fully concrete layout - did not
 // finish in 1500 s; the size arithmetic lives in functions nested inside
 // update_file and cannot be called on its own)
+
+// ===========================================================================
+// C12: fixed-layout block readers are total on arbitrary bits (incl. end of
+// data at every read)
+// ===========================================================================
+
+// @harness prop=C12 tier=quick expect=pass timeout=600
+// @units metadata::Streaminfo::from_reader metadata::BlockHeader::from_reader metadata::BlockType::from_reader metadata::SeekPoint::from_reader
+// @bound arbitrary field values for a block header, a STREAMINFO body and a seek point; every read may instead report end of data
+// @oracle never a panic (the depth field + 1 always fits, reserved block types are errors); Ok values respect their field widths
+#[kani::proof]
+#[kani::unwind(20)]
+fn c12_fixed_block_readers_total() {
+    let mut r = SymBits::arbitrary(7);
+    let h: Result<BlockHeader, Error> = r.parse();
+    if let Ok(h) = &h {
+        assert!(h.size.get() < (1 << 24));
+    }
+    std::mem::forget(h);
+    let mut r = SymBits::arbitrary(7);
+    let s: Result<Streaminfo, std::io::Error> = r.parse();
+    if let Ok(s) = &s {
+        let b = u32::from(s.bits_per_sample);
+        assert!(b >= 1 && b <= 32);
+        assert!(s.channels.get() >= 1 && s.channels.get() <= 8);
+        assert!(s.sample_rate < (1 << 20));
+        assert!(s.total_samples.map(|t| t.get()).unwrap_or(0) < (1 << 36));
+    }
+    kani::cover!(s.is_ok());
+    std::mem::forget(s);
+    let mut r = SymBits::arbitrary(7);
+    let p: Result<SeekPoint, std::io::Error> = r.parse();
+    kani::cover!(matches!(p, Ok(SeekPoint::Placeholder)));
+    std::mem::forget(p);
+}
